@@ -542,6 +542,8 @@ class Fortran90OperatorsRule(GenericRule):  # Coding standards 4.15
                             if cls._op_map[op_str] in strip_inline_comments(line.string).lower()]
 
                 source_string = strip_inline_comments(line[0].string)
+                # Operators inside character literals are not comparisons
+                source_string = re.sub(r"'[^']*'|\"[^\"]*\"", '', source_string)
                 matches = cls._op_patterns[op].findall(source_string)
                 for f77, _ in matches:
                     if f77:
